@@ -58,6 +58,27 @@ def has_tie(parsed):
     return False
 
 
+def local_tie(parsed_a, parsed_b, label, inv, prop):
+    """do the alternatives of ONE constraint (shape, direction, property) tie in count, in either run?"""
+    for parsed in (parsed_a, parsed_b):
+        for sh in parsed['shapes']:
+            if sh['label'] != label:
+                continue
+            alts = {}
+            for st in sh['stmts']:
+                if st['inv'] != inv or st['prop'] != prop:
+                    continue
+                if st['n'] is not None and st['has_fig'] and len(st['types']) == 1:
+                    alts[(st['types'][0], st['card'])] = st['n']
+                for cm in st['comments']:
+                    if 'example' not in cm and cm['n'] is not None:
+                        alts.setdefault((cm['ty'], cm['card']), cm['n'])
+            ns = list(alts.values())
+            if len(ns) != len(set(ns)):
+                return True
+    return False
+
+
 def tie_explained(ev0, ev):
     """the two fact sets differ only by alternatives of one (direction, property) that carry the same count: which of
     several equally frequent alternatives is printed depends on the order of arrival (finding F-C09-1)"""
@@ -98,6 +119,36 @@ def run(ctx):
         for kind, gv, m in variants:
             cases.append((gv, cfg))
         groups.append((idx0, schema, variants))
+    # directed: one property whose number of values differs between instances, with a clear majority (no tie between the exact
+    # cardinalities); keep_less_specific off, so that the exact cardinality chosen must be the most frequent one in every order
+    for i in range(40 if ctx.tier == "quick" else 600):
+        ninst = rng.randint(3, 6)
+        major, minor = rng.sample([1, 2, 3], 2)
+        counts = [major] * (ninst - 1) + [minor]
+        if ninst >= 5 and rng.random() < 0.5:
+            counts[-2] = 6 - major - minor           # a third cardinality, once
+        g = []
+        for j, c in enumerate(counts):
+            g.append((I('d%d' % j), RDF_TYPE, I('D')))
+            for v in range(c):
+                g.append((I('d%d' % j), EX + 'val', L('v%d' % v) if i % 2 else I('o%d_%d' % (j, v))))
+        cfg = gen.gen_cfg(rng, g, presentation=False, allow_cap=False, allow_ignore=False)
+        cfg.update(report='mixed', disable_comments=False, disable_exact=False, keep_less_specific=False, th=(0, 1), target_mode='all', targets=None)
+        variants = []
+        for _ in range(4):
+            g2 = list(g)
+            rng.shuffle(g2)
+            variants.append(('perm', g2, None))
+        # the instance with the rare cardinality declared first / last
+        rare = [t for t in g if t[0] == I('d%d' % (ninst - 1))]
+        rest = [t for t in g if t[0] != I('d%d' % (ninst - 1))]
+        variants.append(('perm', rare + rest, None))
+        variants.append(('perm', rest + rare, None))
+        idx0 = len(cases)
+        cases.append((g, cfg))
+        for kind, gv, m in variants:
+            cases.append((gv, cfg))
+        groups.append((idx0, False, variants))
     if ctx.tier == "thorough":
         # all permutations of small documents
         for i in range(60):
@@ -179,6 +230,10 @@ def run(ctx):
             if not tie:
                 stats["pairs_without_tie"] += 1
             if ch != ch0:
+                # a tie excuses a different choice only for the constraint whose own alternatives tie
+                differing = {(lab, c[0], c[1]) for lab in set(ch) | set(ch0) for c in set(ch.get(lab, [])) ^ set(ch0.get(lab, []))}
+                tie = all(local_tie(r0[1], r[1], lab, inv, prop) for lab, inv, prop in differing)
+                stats["choices_differing_with_local_tie"] = stats.get("choices_differing_with_local_tie", 0) + tie
                 if True:
                     obs = {"kind": "choice", "cfg": cfg, "triples": g, "variant": gv, "schema": schema, "tie": tie, "ch0": ch0, "ch": ch}
                     fid = F.match(kf, obs)
@@ -192,6 +247,7 @@ def run(ctx):
         nontriv += len(g) >= 4 and bool(r0[1]['shapes'])
     return base.std_result(ctx, cases, viol, dis, base.known_lines(kf, reproduced), stats, nontriv, [],
                            "per random graph (40 % schema-consistent) and configuration: 3 random permutations of the document and one blank-node "
-                           "relabelling (also permuted); thorough adds all permutations of 60 documents of <= 6 statements; evidence sets must be "
+                           "relabelling (also permuted); 40 (600) classes whose instances differ in the number of values of one property, rare cardinality first / last, "
+                           "keep_less_specific off; thorough adds all permutations of 60 documents of <= 6 statements; evidence sets must be "
                            "equal always, chosen constraints when no alternatives tie in count (always on schema-consistent graphs); "
                            "non-trivial = at least 4 statements and one shape", DEPS)
